@@ -5,7 +5,7 @@ import re, json, os
 DIRECTIVES = {
     'unit', 'serves', 'module', 'features', 'prelude', 'specs', 'flags', 'assumptions', 'item',
     'pre_attrs', 'requires', 'ensures', 'decreases', 'keep_fields', 'derives', 'loop', 'closure',
-    'params', 'cret', 'crequires', 'censures', 'adapter', 'bind', 'insert', 'wrap', 'carries', 'adapt', 'eta', 'brk_type', 'assumed_begin', 'assumed_end', 'sentinel_specs', 'nosentinel', 'note', 'carve',
+    'params', 'cret', 'crequires', 'censures', 'adapter', 'bind', 'insert', 'wrap', 'carries', 'adapt', 'eta', 'omit', 'brk_type', 'assumed_begin', 'assumed_end', 'sentinel_specs', 'nosentinel', 'note', 'carve',
 }
 
 _dir_re = re.compile(r'^\s*@([a-z_]+)\b(.*)$')
@@ -86,6 +86,8 @@ def parse(path):
             u.name = arg
         elif d == 'serves':
             u.serves = arg.split()
+        elif d == 'omit':
+            u.omit = getattr(u, 'omit', []) + arg.split()
         elif d == 'module':
             k, p = arg.split()
             u.modules[k] = p
@@ -135,7 +137,7 @@ def parse(path):
         elif d == 'eta':
             # @eta Enum::Variant | PayloadType | ResultType
             a = [x.strip() for x in arg.split('|')]
-            item.setdefault('etas', []).append({'path': a[0], 'ty': a[1], 'ret': a[2]})
+            item.setdefault('etas', []).append({'path': a[0], 'ty': a[1], 'ret': a[2], 'nospec': len(a) > 3 and a[3] == 'nospec'})
         elif d == 'brk_type':
             k, _, ty = arg.partition(' ')
             item.setdefault('brk_types', {})[str(int(k))] = ty.strip()
